@@ -55,26 +55,40 @@ func roleOf(site string) string {
 	return ""
 }
 
+// Sites that never park: their handlers commute with everything the harness observes
+// (stats report, journal rotation of local transactions) or belong to shutdown.
+var passThrough = map[string]bool{
+	"loop:report.C": true, "loop:journal.C": true, "loop:pool.chainHeadSub.Err()": true,
+	"scheduleReorgLoop:pool.reorgShutdownCh": true,
+}
+
+// Sites right before an operation that makes one case of scheduleReorgLoop's select ready.
+// Go picks at random among ready select cases, so the scheduler lets only one such
+// operation happen at a time and only while scheduleReorgLoop sits in its select.
+var triggers = map[string]bool{
+	"requestPromoteExecutables:select": true, "requestReset:select": true,
+	"queueTxEvent:select": true, "runReorg:unlocked": true,
+}
+
 // yield is installed as tx_pool.VerifYield.
 func (s *scheduler) yield(site string) {
 	s.mu.Lock()
 	s.seen[site]++
-	if !s.active {
+	if !s.active || passThrough[site] {
 		s.mu.Unlock()
 		return
 	}
 	key := roleOf(site)
 	if key == "" {
-		// a site on a caller's goroutine (addTxs): it belongs to the client released last
-		if !strings.HasPrefix(s.current, "client:") {
+		// a site on a caller's goroutine: only the goroutine released last can reach one
+		if key = s.current; key == "" {
 			s.mu.Unlock()
 			return
 		}
-		key = s.current
 	}
 	for _, p := range s.parked {
 		if p.key == key {
-			s.bad = "two goroutines parked under the role " + key
+			s.bad = "two goroutines parked under the role " + key + " (" + p.site + ", " + site + ")"
 		}
 	}
 	p := &parkedG{key: key, site: site, ch: make(chan struct{})}
@@ -111,43 +125,63 @@ func (s *scheduler) run() {
 			break
 		}
 		sort.Slice(s.parked, func(i, j int) bool { return s.parked[i].key < s.parked[j].key })
-		idx := 0
-		n := len(s.parked)
-		forced := false
-		if r.pool != nil && !r.pool.VerifMuFree() {
-			// Everything is durably blocked and yet the pool lock is held: its holder waits (inside
-			// queueTxEvent) for scheduleReorgLoop, which is parked. Any other goroutine released now
-			// would block on the mutex, which is not a durable block: quiescence would never be
-			// reached. The only possible step is scheduleReorgLoop.
-			forced = true
-			idx = -1
-			for i, p := range s.parked {
-				if p.key == "sched" {
-					idx = i
-				}
-			}
-			if idx < 0 {
-				s.bad = "pool lock held at quiescence while scheduleReorgLoop is not parked"
-				s.mu.Unlock()
-				break
+		muFree := r.pool == nil || r.pool.VerifMuFree()
+		schedParked := false
+		for _, p := range s.parked {
+			if p.key == "sched" {
+				schedParked = true
 			}
 		}
-		if !forced && n > 1 && r.decisions < maxDecide {
+		// Eligible goroutines. (1) While the pool lock is held at quiescence its holder is parked
+		// inside queueTxEvent; anybody else would block on the mutex, which is not a durable
+		// block, and quiescence would never be reached again. (2) One select trigger at a time.
+		var el []*parkedG
+		for _, p := range s.parked {
+			if !muFree && p.site != "queueTxEvent:select" && p.key != "sched" {
+				continue
+			}
+			if triggers[p.site] && schedParked {
+				continue
+			}
+			el = append(el, p)
+		}
+		if len(el) == 0 {
+			s.bad = fmt.Sprintf("no eligible goroutine among %d parked (lock free: %v)", len(s.parked), muFree)
+			s.mu.Unlock()
+			break
+		}
+		idx := 0
+		n := len(el)
+		if n > 1 && r.decisions < maxDecide {
 			idx = r.tape.Draw(n)
 			r.decisions++
 			if idx > 0 {
 				r.res.Fault("schedule:non-default-choice")
 			}
 		}
-		p := s.parked[idx]
-		s.parked = append(s.parked[:idx], s.parked[idx+1:]...)
+		p := el[idx]
+		for i, q := range s.parked {
+			if q == p {
+				s.parked = append(s.parked[:i], s.parked[i+1:]...)
+				break
+			}
+		}
 		s.current = p.key
 		s.mu.Unlock()
 		r.step("   run %s@%s (%d of %d)", p.key, p.site, idx, n)
 		r.ah.Add(p.key[:4], p.site)
 		close(p.ch)
 		synctest.Wait()
-		time.Sleep(time.Millisecond)
+		// move the fake clock a little so that heartbeats of successive steps differ, unless a
+		// goroutine holds the pool lock (a ticker handler would block on it) or the step would
+		// fire the eviction ticker (a second stimulus for loop's select)
+		if r.pool.VerifMuFree() {
+			iv := tx_pool.VerifEvictionInterval()
+			el := time.Since(r.poolStart)
+			if (el+time.Millisecond)/iv == el/iv {
+				time.Sleep(time.Millisecond)
+			}
+		}
 	}
 	synctest.Wait()
 	s.mu.Lock()
@@ -200,7 +234,11 @@ func (r *run) roundInterleaved() {
 	r.step("round of %d", k)
 	mv := r.m.clone()
 	for i := 0; i < k; i++ {
-		switch t.Weighted(8, 3, 1, 1) {
+		kind := t.Weighted(8, 3, 1, 1)
+		if (kind == 1 || kind == 3) && heads+sleeps > 0 {
+			kind = 0 // one stimulus for loop's select per round (Go picks at random among ready cases)
+		}
+		switch kind {
 		case 0:
 			p := r.planAdd(mv)
 			mv = p.post
